@@ -3,6 +3,7 @@ package main
 import (
 	"fmt"
 	"strings"
+	"time"
 
 	"github.com/fluffle/goirc/client"
 
@@ -222,5 +223,73 @@ func c08(c *Ctx) {
 			Impl: []string{drv.L(client.VerifSplitArgs(args, ml))}, Tag: "splitargs", Key: fmt.Sprintf("%d|%q", ml, args),
 			Replay: map[string]interface{}{"op": "splitArgs", "args_hex": a2h(args), "maxlen": ml}})
 	}
+	c.RunCases(cases)
+	c08Wire(c)
+}
+
+// c08Wire: the bytes that actually reach the socket, for calls made on a connected client.
+func c08Wire(c *Ctx) {
+	sess, err := newSession(nil, nil)
+	if err != nil {
+		c.Res.Inconclusive++
+		return
+	}
+	defer sess.close()
+	sess.srv.WaitLines(2, 2*time.Second)
+	sess.sync(5 * time.Second)
+	var cases []Case
+	n := c.Pick(300, 3000)
+	for i := 0; i < n; i++ {
+		m := cmdSpecs[c.R.N(len(cmdSpecs))]
+		var a, v, enc []string
+		for _, k := range m.kinds {
+			if k == 'b' {
+				s := nastyArg(c.R)
+				if c.R.P(1, 6) {
+					s = c.R.Bytes(c.R.Range(480, 1200), "abc .")
+				}
+				a = append(a, s)
+				enc = append(enc, drv.H(s))
+			} else {
+				for j := c.R.N(3); j > 0; j-- {
+					v = append(v, nastyArg(c.R))
+				}
+				enc = append(enc, drv.L(v))
+			}
+		}
+		up := "-"
+		if m.model == "Ctcp" || m.model == "CtcpReply" {
+			up = drv.H(strings.ToUpper(a[1]))
+		}
+		before := len(sess.srv.Raw())
+		c.Journal(fmt.Sprintf("C08 wire: %s(%q, %q)", m.name, truncAll(a, 30), truncAll(v, 30)))
+		callCmd(sess.conn, m.name, a, v)
+		if !sess.sync(10 * time.Second) {
+			c.SpecFail("spec", fmt.Sprintf("%s(%q,%q) on a connection", m.name, truncAll(a, 40), truncAll(v, 40)), "", "the connection stopped answering after this call", nil)
+			return
+		}
+		raw := sess.srv.Raw()[before:]
+		// drop the PONG of our own sync marker (the last line)
+		if i := strings.LastIndex(raw[:len(raw)-2], "\r\n"); i >= 0 {
+			raw = raw[:i+2]
+		} else {
+			raw = ""
+		}
+		argstr := strings.Join(enc, " ")
+		var lines []string
+		if raw != "" {
+			lines = strings.Split(strings.TrimSuffix(raw, "\r\n"), "\r\n")
+		}
+		tag := "wire/" + m.name
+		cases = append(cases, Case{
+			Desc: fmt.Sprintf("wire bytes of %s(%q, %q): %d bytes", m.name, truncAll(a, 40), truncAll(v, 40), len(raw)),
+			Reqs: []string{fmt.Sprintf("cmd %d %s %s %s %s", 450, drv.H("GoBye!"), up, m.model, argstr)},
+			Impl: []string{drv.L(lines)},
+			Spec: []string{fmt.Sprintf("spec08b %s %s %s", drv.H(raw), m.model, argstr)},
+			Tag:  tag, Key: m.name + "|" + argstr,
+			Replay: map[string]interface{}{"op": "command-on-connection", "method": m.name, "args_hex": a2h(a), "variadic_hex": a2h(v), "wire_hex": drv.H(raw)},
+		})
+	}
+	c.Res.Traces++
 	c.RunCases(cases)
 }
